@@ -2986,6 +2986,9 @@ func (e *FactEngine) ParseReq(src string, pos token.Pos) (*Formula, error) {
 	}
 	info := &types.Info{Types: map[ast.Expr]types.TypeAndValue{}, Uses: map[*ast.Ident]types.Object{}, Defs: map[*ast.Ident]types.Object{}, Selections: map[*ast.SelectorExpr]*types.Selection{}}
 	if err := types.CheckExpr(e.p.Fset, e.fn.Pkg.Types, pos, x, info); err != nil {
+		if src2, changed := e.p.renameIdents(src); changed {
+			return e.ParseReq(src2, pos)
+		}
 		return nil, fmt.Errorf("type-check %q: %v", src, err)
 	}
 	return e.boolForm(x, &scope{info: info, local: true}), nil
